@@ -13,7 +13,7 @@ META["explanation"] = (
     "until_all_ready() returns only after every begin() completed, quota respected, and - as an invariant over final "
     "states - every terminated worker has begin_calls == end_calls == 1; after the pool context every worker terminated.")
 META["bounds"] = {"quick": {"workers": "1", "items": "<=1", "faults": "begin raises / functor raises (solver's choice)", "quota": "none, 1"},
-                  "thorough": {"workers": "1,2", "items": "<=2", "faults": "as quick", "quota": "none, 1"}}
+                  "thorough": {"workers": "1,2", "items": "<=1 all schedules; <=2 with at most 2 pre-emptions", "faults": "as quick", "quota": "none, 1"}}
 META["outside_bounds"] = list(c01.META["outside_bounds"]) + [
     "FactoryFunctorPool: lifecycle of REPLACED workers (dynamic worker creation by ReplaceWorkerThread is not encoded: the "
     "6-thread replacement configurations were measured out of reach of the BMC back end, DESIGN.md section 3.4/6)",
@@ -33,18 +33,32 @@ def extra_assert(S, info):
     return z3.Or(bad) if bad else z3.BoolVal(False)
 
 
+def replay_extra(out):
+    """the same final-state invariant evaluated on the real run: every finished worker has begin_calls == end_calls == 1"""
+    bad = []
+    mon = out.get("monitors") or {}
+    for t in out.get("finished_threads") or []:
+        b, e = mon.get("%s.begin_calls" % t), mon.get("%s.end_calls" % t)
+        if b is None and e is None:
+            continue
+        if b != 1 or e != 1:
+            bad.append("terminated-worker-%s-has-begin_calls=%s-end_calls=%s" % (t, b or 0, e or 0))
+    return bad
+
+
 def configs(tier):
     out = [{"kind": "pool", "lifecycle": True, "workers": 1, "cs": 1, "nmax": 1},
            {"kind": "pool", "lifecycle": True, "workers": 1, "cs": 1, "nmax": 1, "quota": 1}]
     if tier != "quick":
         out += [{"kind": "pool", "lifecycle": True, "workers": 2, "cs": 1, "nmax": 1},
-                {"kind": "pool", "lifecycle": True, "workers": 1, "cs": 1, "nmax": 2},
-                {"kind": "pool", "lifecycle": True, "workers": 2, "cs": 1, "nmax": 2, "quota": 1}]
+                {"kind": "pool", "lifecycle": True, "workers": 1, "cs": 1, "nmax": 2, "context_bound": 2, "Ks": (76, 90)},
+                {"kind": "pool", "lifecycle": True, "workers": 2, "cs": 1, "nmax": 2, "quota": 1, "context_bound": 2, "Ks": (84, 100)},
+                {"kind": "pool", "lifecycle": True, "workers": 1, "cs": 1, "nmax": 2, "quota": 1, "rq": 1, "context_bound": 3, "Ks": (80, 96)}]
     return out
 
 
 def run(tier, seed):
     Ks = (44, 56, 68) if tier == "quick" else (50, 64, 80, 100)
     return runner.run_property("C04", tier, seed, "harness.pools_common", configs(tier), ("assert",), Ks,
-                               900 if tier == "quick" else 6000, META, wall_limit=1700 if tier == "quick" else 20000,
+                               900 if tier == "quick" else 2400, META, wall_limit=1700 if tier == "quick" else 12000,
                                extra_module="harness.c04", faults_may_block=True)
